@@ -524,13 +524,13 @@ func runDisc(c DiscCase) []ev.Violation {
 	}
 	if c.Mode == "recovery" {
 		// DiscoverEndpoint runs after the listing was served: give it time to parse and register
-		wait := 200 * time.Millisecond
+		wait := 250 * time.Millisecond
 		if c.Kind == "oversized" {
 			wait = 1000 * time.Millisecond
 		}
 		time.Sleep(wait)
 	}
-	stale := false
+	stale, dupEntries, after := false, false, ""
 	judgeA := func() (sig, detail string) {
 		stale = false
 		names, set, err := listed(s, A.URL())
@@ -540,15 +540,13 @@ func runDisc(c DiscCase) []ev.Violation {
 		unchanged := sameSet(set, c.GoodA)
 		switch {
 		case unchanged:
-			rec.Class("disc/after=previous-listing-kept")
+			after = "previous-listing-kept"
 		case len(set) == 0:
-			rec.Class("disc/after=listing-emptied")
+			after = "listing-emptied"
 		default:
-			rec.Class("disc/after=replaced-by-payload-names")
+			after = "replaced-by-payload-names"
 		}
-		if len(names) != len(set) {
-			rec.Class("disc/after=listing-has-duplicate-entries(observed)")
-		}
+		dupEntries = len(names) != len(set)
 		if !unchanged {
 			for n := range set {
 				if n == "" {
@@ -608,6 +606,10 @@ func runDisc(c DiscCase) []ev.Violation {
 			bad(sig2, "%s", detail2)
 		}
 	}
+	rec.Class("disc/after=" + after)
+	if dupEntries {
+		rec.Class("disc/after=listing-has-duplicate-entries(observed)")
+	}
 	if stale {
 		rec.Class("disc/after=unified-fallback-still-names-endpoint-for-dropped-model(observed,C10)")
 	}
@@ -631,7 +633,15 @@ func runDisc(c DiscCase) []ev.Violation {
 		bad("hang/discovery-round", "round 3 (good listing after %s) did not finish", c.Kind)
 		return vs
 	}
-	if !settle(func() bool { _, set, err := listed(s, A.URL()); return err == nil && sameSet(set, c.GoodA3) }) {
+	applied := func() bool { _, set, err := listed(s, A.URL()); return err == nil && sameSet(set, c.GoodA3) }
+	ok3 := settle(applied)
+	if !ok3 && c.Mode == "recovery" {
+		// the recovery callback is asynchronous: round 2's registration may have landed after round 3's.
+		// A listing that is really not applied stays unapplied when the endpoint recovers once more.
+		rec.Class("disc/round3-retriggered")
+		ok3 = !round(A) && settle(applied)
+	}
+	if !ok3 {
 		la, _, _ := listed(s, A.URL())
 		bad("discovery/good-listing-not-applied-after-poisoned-round/"+c.Kind, "endpoint A (%s) served %s, then the good listing %v, but the registry lists %v", c.TypeA, show([]byte(poison)), c.GoodA3, la)
 	}
